@@ -221,13 +221,30 @@ Proof.
 Qed.
 Print Assumptions C10_lazy_cobol_like.
 
-(* ---- NDNav.index on a negative int is NOT refused (finding K-negative-index): the only test is
-   index >= item_count, and the occurrence is walked from a start before the table *)
-Theorem C10_negative_index_refuted : forall (v : vnav) st sz isz cnt it sch z,
+(* ---- NDNav.index takes any Python int; index_start_z (Model/LayoutValue.v) evaluates the refusal tests the extractor
+   read in the source (Gen/LayoutParams.v: index_refuse_low, index_refuse) on an integer.
+   Every negative index is refused with IndexError, whatever the table (fix 08e8809). *)
+Theorem C10_negative_index_refused : forall (v : vnav) st sz isz cnt it sch z,
   vn_loc v = WArr st sz isz cnt it sch -> (z < 0)%Z ->
-  index_start_z v z = Ok (Z.of_nat st + Z.of_nat isz * z)%Z.
-Proof. exact index_start_negative. Qed.
-Print Assumptions C10_negative_index_refuted.
+  index_start_z v z = Err IndexError.
+Proof. exact index_negative_refused. Qed.
+Print Assumptions C10_negative_index_refused.
+
+(* an index is accepted exactly when 0 <= index < item_count *)
+Theorem C10_index_accepted_iff : forall (v : vnav) st sz isz cnt it sch z,
+  vn_loc v = WArr st sz isz cnt it sch ->
+  (index_start_z v z <> Err IndexError <-> (0 <= z < Z.of_nat cnt)%Z).
+Proof. exact index_accepted_iff. Qed.
+Print Assumptions C10_index_accepted_iff.
+
+(* What fix 08e8809 repaired (finding K-negative-index): with the single test index >= item_count of the original
+   source (no test against 0) a negative index is NOT refused, and the occurrence is walked from a start BEFORE the
+   table. *)
+Theorem C10_negative_index_old_refuted : forall (v : vnav) st sz isz cnt it sch z,
+  vn_loc v = WArr st sz isz cnt it sch -> (z < 0)%Z ->
+  index_start_with None (Some LayoutRule.CmpGe) v z = Ok (Z.of_nat st + Z.of_nat isz * z)%Z.
+Proof. exact index_start_old_negative. Qed.
+Print Assumptions C10_negative_index_old_refuted.
 
 (* on natural numbers index_start_z is where vnav_index walks *)
 Theorem C10_index_start : forall (v : vnav) st sz isz cnt it sch i,
@@ -305,10 +322,14 @@ Example C10_example_counters :
   /\ odo_keys (build (Group 1%N Once None (ICons (Elem 2%N 1 Once None) (ICons (Elem 4%N 1 (Odo 2%N) None) INil)))) = [2%N].
 Proof. vm_compute. split; reflexivity. Qed.
 
-(* K-negative-index: index(-1) on the table T (start 2, item size 3) is walked from start -1 *)
+(* index(-1) on the table T (start 2, item size 3, 2 occurrences) is refused; index(1) is walked from 5; with the
+   tests of the original source index(-1) was walked from start -1 *)
 Example C10_negative_index_example :
-  (match ex_at ex_r [SKey (KName 3%N)] with Ok v => index_start_z v (-1) | Err e => Err e end) = Ok (-1)%Z.
-Proof. vm_compute. reflexivity. Qed.
+  (match ex_at ex_r [SKey (KName 3%N)] with Ok v => index_start_z v (-1) | Err e => Err e end) = Err IndexError
+  /\ (match ex_at ex_r [SKey (KName 3%N)] with Ok v => index_start_z v 1 | Err e => Err e end) = Ok 5%Z
+  /\ (match ex_at ex_r [SKey (KName 3%N)] with
+      | Ok v => index_start_with None (Some LayoutRule.CmpGe) v (-1) | Err e => Err e end) = Ok (-1)%Z.
+Proof. vm_compute. repeat split; reflexivity. Qed.
 
 (* K-index-odo: 01 R. 05 N PIC 9. 05 G OCCURS 2. 10 T OCCURS DEPENDING ON N PIC X.
    The whole value of G exists, G.index(0) raises KeyError: commutation fails (the items schema of G is not closed) *)
